@@ -35,7 +35,8 @@ ASSUMPTIONS = ['wf: name/message/details of a RaisedException, the fields of Rec
 TECHNIQUE = 'Coq proof over a hand-written executable model of objtypes.py/actions.py + differential cases (vm_compute) + real marshal + impl oracle'
 LEVEL_TEXT = ('Kernel-checked theorems about the model of encode_object/decode_object over the whole value universe V, any recursion fuel and '
               'arbitrary library oracles: the encoded form of a well-formed value without subclass-str dict keys is marshalable (only exact '
-              'None/bool/int/float/str, lists, tuples, str-keyed dicts), so are action representations and to_json_obj bundles; '
+              'None/bool/int/float/str, lists, tuples, str-keyed dicts) and nests at most 2*fuel+r+3 levels, so are action representations '
+              'and to_json_obj bundles; '
               'encode(decode(encode v)) = encode v for every value whose datetimes lie at least a day inside the calendar, under two monitored '
               'library facts. The two excluded cases are refuted by witnesses replayed on the implementation.')
 LEVEL_NOTE = ('Kernel level: the real recursion limit and marshal depth limit are runtime behaviour, modelled by fuel and exercised by the link. '
